@@ -55,6 +55,11 @@ impl Subscriber for CaptureSubscriber {
     fn record(&self, _span: &Id, _values: &Record<'_>) {}
     fn record_follows_from(&self, _span: &Id, _follows: &Id) {}
     fn event(&self, event: &Event<'_>) {
+        if trace_to_stderr() && *event.metadata().level() <= tracing::Level::DEBUG && event.metadata().target().starts_with("mdk") {
+            let mut text = String::new();
+            event.record(&mut V(&mut text));
+            eprintln!("      LOG {} {}{}", event.metadata().level(), event.metadata().target(), text);
+        }
         CAP.with(|c| {
             let Ok(mut c) = c.try_borrow_mut() else { return };
             if !c.active {
@@ -71,6 +76,12 @@ impl Subscriber for CaptureSubscriber {
     }
     fn enter(&self, _span: &Id) {}
     fn exit(&self, _span: &Id) {}
+}
+
+/// VERIF_TRACE=1: library log records (DEBUG and up) and simulator notes go to stderr as they happen
+pub fn trace_to_stderr() -> bool {
+    static ON: std::sync::OnceLock<bool> = std::sync::OnceLock::new();
+    *ON.get_or_init(|| std::env::var("VERIF_TRACE").is_ok())
 }
 
 pub fn install() {
